@@ -677,7 +677,7 @@ _CONV_OK = [  # (query, v in base units, t in base units (value incl. constant),
 _CONV_ERR = [  # (query, expected number of suggestions; None = any error that is not a conformance error)
     ('1 Hz -> s', 1), ('1 s -> Hz', 1), ('1 m/s -> s/m', 1),
     ('1 m -> m^-2', 2), ('1 s -> 1/s^2', 2), ('1 Hz -> s^2', 2), ('1 W -> J', 2), ('1 m -> s', 2), ('1 m -> 0 s', 2), ('1 Hz -> 0 s', 1), ('5 -> 0 m', 2),
-    ('1 m -> 0 ft', None), ('1 m -> 0 m', None),
+    ('1 m -> 0 ft', None), ('1 m -> 0 m', None), ('1 m -> 0 * 2^0.5 m', None), ('0 m -> (2^0.5 - 2^0.5) m', None),
 ]
 
 
@@ -737,7 +737,7 @@ _fw6 = find_witness
 
 def find_witness(o, rep):  # noqa: F811
     slot = o.get('slot') or ''
-    if slot.startswith('eval_query::convert') or slot in ('conformance_err', 'Context::show'):
+    if slot.startswith('eval_query::convert') or slot in ('conformance_err', 'Context::show') or (slot == 'Number::div' and rep.get('property') == 'C03'):
         w = _convert_witness()
         if w:
             return w
